@@ -358,6 +358,15 @@ func c18r4(c *Check) {
 			key := fmt.Sprintf("%s index %s", FuncName(EnclosingDecl(fn)), cand.name)
 			// find guard: if par >= len(x) (x tainted) -> true edge returns non-nil error without Store
 			var guard *ssa.If
+			inSucc, outSucc := 1, 0
+			isLenOf := func(v ssa.Value, ok2 func(ssa.Value) bool) bool {
+				call, ok := v.(*ssa.Call)
+				if !ok {
+					return false
+				}
+				b, ok := call.Call.Value.(*ssa.Builtin)
+				return ok && b.Name() == "len" && ok2(call.Call.Args[0])
+			}
 			allInstrs(fn, func(in ssa.Instruction) {
 				ifi, ok := in.(*ssa.If)
 				if !ok {
@@ -368,31 +377,128 @@ func c18r4(c *Check) {
 					return
 				}
 				isLen := func(v ssa.Value) bool {
-					call, ok := v.(*ssa.Call)
-					if !ok {
-						return false
-					}
-					b, ok := call.Call.Value.(*ssa.Builtin)
-					return ok && b.Name() == "len" && (t.is(call.Call.Args[0]) || t.shape(call.Call.Args[0]).tainted)
+					return isLenOf(v, func(x ssa.Value) bool { return t.is(x) || t.shape(x).tainted })
 				}
 				if (bo.Op == token.GEQ && cand.is(bo.X) && isLen(bo.Y)) || (bo.Op == token.LEQ && cand.is(bo.Y) && isLen(bo.X)) {
 					guard = ifi
 				}
 			})
 			if guard == nil {
+				// the bound test lives in a validator: err := checkIndex(snapshot, index); if err != nil { return err }
+				allInstrs(fn, func(in ssa.Instruction) {
+					call, ok := in.(*ssa.Call)
+					if !ok || guard != nil {
+						return
+					}
+					g := call.Call.StaticCallee()
+					if g == nil || len(g.Blocks) == 0 || !ModuleFunc(g) {
+						return
+					}
+					res := g.Signature.Results()
+					if res.Len() != 1 || !types.Identical(res.At(0).Type(), errorType) {
+						return
+					}
+					pi := -1
+					hasSnap := false
+					for ai, a := range call.Call.Args {
+						if cand.is(a) {
+							pi = ai
+						}
+						if t.is(a) || t.shape(a).tainted || isSnapshotLoad(strip(a)) {
+							hasSnap = true
+						}
+					}
+					if pi < 0 || !hasSnap || pi >= len(g.Params) {
+						return
+					}
+					par := g.Params[pi]
+					// in g: the edge on which par >= len(<something of another parameter>) returns only non-nil errors,
+					// and no nil error is returned without passing that test
+					okHelper := false
+					for _, b := range g.Blocks {
+						ifi, ok := b.Instrs[len(b.Instrs)-1].(*ssa.If)
+						if !ok {
+							continue
+						}
+						bo, ok := ifi.Cond.(*ssa.BinOp)
+						if !ok {
+							continue
+						}
+						fromParam := func(x ssa.Value) bool {
+							// an accessor of a parameter (conf.Dests()) counts as part of it
+							if call, ok := x.(*ssa.Call); ok && len(call.Call.Args) <= 1 {
+								if call.Call.IsInvoke() && len(call.Call.Args) == 0 {
+									x = call.Call.Value
+								} else if !call.Call.IsInvoke() && len(call.Call.Args) == 1 {
+									x = call.Call.Args[0]
+								}
+							}
+							for _, q := range g.Params {
+								if q != par && derivedFrom(x, q, map[ssa.Value]bool{}) {
+									return true
+								}
+							}
+							return false
+						}
+						if !((bo.Op == token.GEQ && bo.X == ssa.Value(par) && isLenOf(bo.Y, fromParam)) || (bo.Op == token.LEQ && bo.Y == ssa.Value(par) && isLenOf(bo.X, fromParam))) {
+							continue
+						}
+						good := true
+						for _, rb := range g.Blocks {
+							ret, ok := rb.Instrs[len(rb.Instrs)-1].(*ssa.Return)
+							if !ok {
+								continue
+							}
+							cst, isC := ret.Results[0].(*ssa.Const)
+							nilErr := isC && cst.IsNil()
+							onOut := edgeDominates(b, b.Succs[0], rb)
+							onIn := edgeDominates(b, b.Succs[1], rb)
+							if onOut && (nilErr || !isC && !isErrorCtor(ret.Results[0])) {
+								good = false
+							}
+							if nilErr && !onIn {
+								good = false
+							}
+						}
+						if good {
+							okHelper = true
+						}
+					}
+					if !okHelper {
+						return
+					}
+					for _, b := range fn.Blocks {
+						ifi, ok := b.Instrs[len(b.Instrs)-1].(*ssa.If)
+						if !ok {
+							continue
+						}
+						e, errEdge, ok := errTest(ifi.Cond)
+						if !ok || e != ssa.Value(call) {
+							continue
+						}
+						guard = ifi
+						if errEdge {
+							outSucc, inSucc = 0, 1
+						} else {
+							outSucc, inSucc = 1, 0
+						}
+					}
+				})
+			}
+			if guard == nil {
 				c.Violate(key, c.At(uses[0]), "snapshot slice indexed by a caller-supplied integer without an upper-bound test")
 				continue
 			}
 			okAll := true
 			for _, u := range uses {
-				// the use must lie on the false edge of the guard
-				if !edgeDominates(guard.Block(), guard.Block().Succs[1], u.Block()) {
+				// the use must lie on the in-range edge of the guard
+				if !edgeDominates(guard.Block(), guard.Block().Succs[inSucc], u.Block()) {
 					okAll = false
 					c.Violate(key, c.At(u), "index use is not dominated by the in-range edge of the bound test")
 				}
 			}
 			// the true edge returns an error and reaches no Store
-			paths, _ := EnumPaths(fn, guard.Block().Succs[0], &PathCfg{Classify: func(in ssa.Instruction) []string {
+			paths, _ := EnumPaths(fn, guard.Block().Succs[outSucc], &PathCfg{Classify: func(in ssa.Instruction) []string {
 				if _, _, ok := publishedAccess(in, atomicStore); ok {
 					return []string{"store"}
 				}
@@ -527,34 +633,7 @@ func isShutdownCall(in ssa.Instruction) (string, bool) {
 }
 
 func c18r5(c *Check) {
-	// (a) Store dominates Shutdown
-	for _, fn := range c.P.Funcs {
-		var stores, shuts []ssa.Instruction
-		allInstrs(fn, func(in ssa.Instruction) {
-			if base, _, ok := publishedAccess(in, atomicStore); ok && !isFreshObject(base) {
-				stores = append(stores, in)
-			}
-			if _, ok := isShutdownCall(in); ok {
-				if _, isDefer := in.(*ssa.Defer); !isDefer {
-					shuts = append(shuts, in)
-				}
-			}
-		})
-		if len(stores) == 0 || len(shuts) == 0 {
-			continue
-		}
-		for _, sh := range shuts {
-			name, _ := isShutdownCall(sh)
-			key := fmt.Sprintf("%s %s after Store", FuncName(fn), name)
-			dom := false
-			for _, st := range stores {
-				if instrDominates(st, sh) {
-					dom = true
-				}
-			}
-			c.Judge(dom, key, c.At(sh), "the new snapshot is stored before the removed entity is shut down", "the entity is shut down while the published snapshot still lists it: traffic that sees it is handed to a goroutine that has exited and blocks forever")
-		}
-	}
+	storeBeforeShutdown(c, "")
 	// (b) bare sends to mortal receivers
 	inField := c.P.Field("destination", "Destination", "In")
 	relay := c.P.Func("destination", "*Destination", "relay")
@@ -707,4 +786,119 @@ func fromSnapshot(v ssa.Value) bool {
 	}
 	rec(v, 0)
 	return found
+}
+
+// isErrorCtor: v is certainly a non-nil error (fmt.Errorf / errors.New result).
+func isErrorCtor(v ssa.Value) bool {
+	if mi, ok := v.(*ssa.MakeInterface); ok {
+		v = mi.X
+	}
+	call, ok := v.(*ssa.Call)
+	if !ok {
+		return false
+	}
+	switch calleeName(call.Common()) {
+	case "fmt.Errorf", "errors.New":
+		return true
+	}
+	return false
+}
+
+// storeBeforeShutdown: (a) of C18.R5 — the Store of the new snapshot dominates the Shutdown of the
+// removed entity; `only` restricts the rule to Shutdown callees whose name contains it.
+func storeBeforeShutdown(c *Check, only string) int {
+	nJudged := 0
+	isStore := func(in ssa.Instruction) bool {
+		base, _, ok := publishedAccess(in, atomicStore)
+		return ok && !isFreshObject(base)
+	}
+	// publishes: g (or a same-package function it calls statically, to a small depth) stores a snapshot
+	pubMemo := map[*ssa.Function]bool{}
+	var publishes func(g *ssa.Function, depth int) bool
+	publishes = func(g *ssa.Function, depth int) bool {
+		if g == nil || len(g.Blocks) == 0 || depth > 3 {
+			return false
+		}
+		if v, ok := pubMemo[g]; ok {
+			return v
+		}
+		pubMemo[g] = false
+		res := false
+		allInstrs(g, func(in ssa.Instruction) {
+			if isStore(in) {
+				res = true
+			}
+			if call, ok := in.(*ssa.Call); ok && !res {
+				if h := call.Call.StaticCallee(); h != nil && fnPkg(h) == fnPkg(g) && publishes(h, depth+1) {
+					res = true
+				}
+			}
+		})
+		pubMemo[g] = res
+		return res
+	}
+	for _, fn := range c.P.Funcs {
+		var stores, shuts []ssa.Instruction
+		allInstrs(fn, func(in ssa.Instruction) {
+			if isStore(in) {
+				stores = append(stores, in)
+			} else if call, ok := in.(*ssa.Call); ok {
+				if h := call.Call.StaticCallee(); h != nil && h != fn && fnPkg(h) == fnPkg(fn) && publishes(h, 0) {
+					stores = append(stores, in)
+				}
+			}
+			if nm, ok := isShutdownCall(in); ok && strings.Contains(nm, only) {
+				if _, isDefer := in.(*ssa.Defer); !isDefer {
+					shuts = append(shuts, in)
+				}
+			}
+		})
+		if len(shuts) == 0 {
+			continue
+		}
+		if len(stores) == 0 {
+			// a closure that a publishing helper runs: it must run after that helper's Store
+			if fn.Parent() == nil {
+				continue
+			}
+			for _, e := range c.P.CG().In[fn] {
+				site, ok := e.Site.(*ssa.Call)
+				if !ok || e.Kind == EdgeRef || e.Caller == fn.Parent() || !publishes(e.Caller, 0) {
+					continue
+				}
+				var st []ssa.Instruction
+				allInstrs(e.Caller, func(in ssa.Instruction) {
+					if isStore(in) {
+						st = append(st, in)
+					}
+				})
+				for _, sh := range shuts {
+					name, _ := isShutdownCall(sh)
+					key := fmt.Sprintf("%s %s after Store", FuncName(fn), name)
+					dom := false
+					for _, x := range st {
+						if instrDominates(x, site) {
+							dom = true
+						}
+					}
+					nJudged++
+					c.Judge(dom, key, c.At(sh), "the helper that runs this closure has stored the new snapshot before it calls the closure", "the closure that shuts the entity down is run by "+FuncName(e.Caller)+" before that function stores the new snapshot: traffic that still sees the entity is handed to a goroutine that has exited and blocks forever")
+				}
+			}
+			continue
+		}
+		for _, sh := range shuts {
+			name, _ := isShutdownCall(sh)
+			key := fmt.Sprintf("%s %s after Store", FuncName(fn), name)
+			dom := false
+			for _, st := range stores {
+				if instrDominates(st, sh) {
+					dom = true
+				}
+			}
+			nJudged++
+			c.Judge(dom, key, c.At(sh), "the new snapshot is stored before the removed entity is shut down", "the entity is shut down while the published snapshot still lists it: traffic that sees it is handed to a goroutine that has exited and blocks forever")
+		}
+	}
+	return nJudged
 }
